@@ -48,6 +48,20 @@ def produce(doc, fmt, dest, scratch):
         doc.serialize(w, format=fmt)
         w.flush()
         return b.getvalue().decode("utf-16")
+    if dest == "path-xfs":
+        # the temp directory on another file system than the destination: the final move is a copy and an unlink
+        from harness.props import c17
+        xfs = c17.other_filesystem_dir()
+        old = tempfile.tempdir
+        if xfs:
+            tempfile.tempdir = os.path.join(xfs, "c16_tmp_%d" % os.getpid())
+            os.makedirs(tempfile.tempdir, exist_ok=True)
+        try:
+            return produce(doc, fmt, "path", scratch)
+        finally:
+            if xfs:
+                shutil.rmtree(tempfile.tempdir, ignore_errors=True)
+            tempfile.tempdir = old
     p = os.path.join(scratch, "out #1?x;y_%s.%s" % (fmt, fmt))      # characters that are URL syntax
     # the destination exists already and holds a longer file (a previous, larger save to the same path)
     with open(p, "wb") as fh:
@@ -209,14 +223,17 @@ def run_doc(doc, scratch, idx):
     laws = Counter()
     for fmt in FMTS:
         arts = {}
-        for dest in ("string", "text", "binary", "path", "text16"):
+        for dest in ("string", "text", "binary", "path", "text16", "path-xfs"):
             try:
                 arts[dest] = produce(doc, fmt, dest, scratch)
             except Exception as e:
                 fails.append({"what": "serialize raised", "format": fmt, "destination": dest, "exc": repr(e)[:300]})
-        if len(arts) < 5:
+        if len(arts) < 6:
             continue
-        n += 5
+        n += 6
+        if fmt != "rdf" and arts["path-xfs"] != arts["path"]:
+            fails.append({"what": "a file written through a temp directory on another file system holds another text", "format": fmt,
+                          "bytes": [len(arts["path"]), len(arts["path-xfs"])]})
         text = arts["string"]
         if not isinstance(text, str) or not isinstance(arts["text"], str) or not isinstance(arts["binary"], bytes):
             fails.append({"what": "wrong artefact type", "format": fmt})
